@@ -23,8 +23,8 @@ import (
 
 // compose slice: stacks of real policies around a scripted function; see lean/Driver/Compose.lean for the protocol.
 
-const composeTimeout = 80 * time.Millisecond
-const composeHedgeDelay = 6 * time.Millisecond
+const composeTimeout = 160 * time.Millisecond
+const composeHedgeDelay = 30 * time.Millisecond
 
 type mapCache struct {
 	mu sync.Mutex
